@@ -1,5 +1,200 @@
-import FV.Model.Disc
-/- placeholder, replaced below -/
+import FV.Proofs.Disc
+/-
+  C17 — Disc-overlap area is total, symmetric, bounded and accurate.
+
+  Property theorems about the model `FV/Model/Disc.lean` of `circle_circle_intersection_area` (as repaired
+  by fixes/C17_acos_clamp.diff).
+  * Over `ℝ` (`realFns`: `x ** 2`, `√`, `arccos`, `sin`, `π`, each failing exactly where Python raises):
+    the guards are correct, the function never fails, is symmetric, bounded, and equals the standard
+    closed form of the lens area.
+  * For *every* rounding behaviour (any linearly ordered carrier, arbitrary `+ - * /`, arbitrary library
+    functions): `acos` is only ever applied to a value in `[-1, 1]`, the only possible failure is a zero
+    divisor (underflow of `2 * r * d`), and the result lies in `[0, small]`.
+  What is NOT proved here (no IEEE model): the `1e-5 · r²` accuracy in binary64 — decided by search in
+  harness/props/c17.py against 60-digit arithmetic.
+-/
 namespace FV.C17
-theorem placeholder : True := trivial
+open FV FV.Disc Real
+set_option linter.unusedVariables false
+set_option linter.unusedSectionVars false
+
+/-! ### exact arithmetic -/
+
+/-- the distance never fails over the reals and is the Euclidean one. -/
+theorem dist_real (x1 y1 x2 y2 : ℝ) :
+    Disc.dist realFns x1 y1 x2 y2 = .ok (√((x1 - x2) ^ 2 + (y1 - y2) ^ 2)) := by
+  unfold Disc.dist; simp only [realFns]
+  rw [if_pos (by positivity)]; congr 2
+
+/-- the case split is correct: between the two tangencies both quotients handed to `acos` lie in
+    `[-1, 1]` (stated explicitly because Mathlib's `arccos` is total by clamping). -/
+theorem arg_in_range (r1 r2 d : ℝ) (h1 : 0 < r1) (h2 : 0 < r2) (hlo : |r1 - r2| < d) (hhi : d ≤ r1 + r2) :
+    quot realFns r1 r2 d = .ok (q r1 r2 d) ∧ quot realFns r2 r1 d = .ok (q r2 r1 d) ∧
+    (-1 ≤ q r1 r2 d ∧ q r1 r2 d ≤ 1) ∧ (-1 ≤ q r2 r1 d ∧ q r2 r1 d ≤ 1) := by
+  have hd : 0 < d := lt_of_le_of_lt (abs_nonneg _) hlo
+  have hlo' : |r2 - r1| < d := by rwa [abs_sub_comm]
+  exact ⟨quot_eq r1 r2 d h1 hd, quot_eq r2 r1 d h2 hd,
+    ⟨neg_one_le_q r1 r2 d h1 h2 hlo, q_le_one r1 r2 d h1 h2 hlo hhi⟩,
+    ⟨neg_one_le_q r2 r1 d h2 h1 hlo', q_le_one r2 r1 d h2 h1 hlo' (by linarith)⟩⟩
+
+/-- far apart: no overlap. -/
+theorem far_apart (r1 r2 d : ℝ) (h : r1 + r2 < d) : areaD realFns r1 r2 d = .ok 0 := by
+  unfold areaD; rw [if_pos h]; simp
+
+/-- nested (or internally tangent, or concentric): the area of the smaller disc. -/
+theorem nested (r1 r2 d : ℝ) (h1 : 0 < r1) (h2 : 0 < r2) (h : d ≤ |r1 - r2|) :
+    areaD realFns r1 r2 d = .ok (π * (min r1 r2) ^ 2) := by
+  have : ¬ (r1 + r2 < d) := by
+    have := abs_sub_lt_iff.mpr (⟨by linarith, by linarith⟩ : r1 - r2 < r1 + r2 ∧ r2 - r1 < r1 + r2)
+    linarith
+  unfold areaD; rw [if_neg this]; simp only [pyAbs_eq]; rw [if_pos h, small_eq]
+
+/-- the lower clamp is an identity in exact arithmetic: the lens formula is non-negative … -/
+theorem lens_nonneg (r1 r2 d : ℝ) (h1 : 0 < r1) (h2 : 0 < r2) (hlo : |r1 - r2| < d) (hhi : d ≤ r1 + r2) :
+    0 ≤ lensStd r1 r2 d := lensStd_nonneg r1 r2 d h1 h2 hlo hhi
+
+/-- … and so is the upper clamp: the lens is no larger than the smaller disc. -/
+theorem lens_le_small (r1 r2 d : ℝ) (h1 : 0 < r1) (h2 : 0 < r2) (hlo : |r1 - r2| < d) (hhi : d ≤ r1 + r2) :
+    lensStd r1 r2 d ≤ π * (min r1 r2) ^ 2 := lensStd_le_small r1 r2 d h1 h2 hlo hhi
+
+/-- partially overlapping discs: the result is the standard closed form of the lens area,
+    `r1² acos((d²+r1²-r2²)/(2 d r1)) + r2² acos((d²+r2²-r1²)/(2 d r2)) - ½√((-d+r1+r2)(d+r1-r2)(d-r1+r2)(d+r1+r2))`
+    (all four clamps of the repaired code are identities in exact arithmetic). -/
+theorem lens_formula (r1 r2 d : ℝ) (h1 : 0 < r1) (h2 : 0 < r2) (hlo : |r1 - r2| < d) (hhi : d ≤ r1 + r2) :
+    areaD realFns r1 r2 d = .ok (lensStd r1 r2 d) := by
+  rw [areaD_lens r1 r2 d h1 h2 hlo hhi, max_eq_right (lensStd_nonneg r1 r2 d h1 h2 hlo hhi),
+    min_eq_right (lensStd_le_small r1 r2 d h1 h2 hlo hhi)]
+
+/-- never fails in exact arithmetic, for all centres and positive radii. -/
+theorem total_real (x1 y1 r1 x2 y2 r2 : ℝ) (h1 : 0 < r1) (h2 : 0 < r2) :
+    ∃ a, area realFns x1 y1 r1 x2 y2 r2 = .ok a := by
+  unfold area; rw [dist_real]; simp only [bind, Except.bind]
+  generalize √((x1 - x2) ^ 2 + (y1 - y2) ^ 2) = d
+  by_cases hfar : r1 + r2 < d
+  · exact ⟨_, far_apart r1 r2 d hfar⟩
+  · by_cases hn : d ≤ |r1 - r2|
+    · exact ⟨_, nested r1 r2 d h1 h2 hn⟩
+    · exact ⟨_, areaD_lens r1 r2 d h1 h2 (not_le.mp hn) (not_lt.mp hfar)⟩
+
+/-- symmetric in the two discs (given the distance). -/
+theorem lens_symm (r1 r2 d : ℝ) (h1 : 0 < r1) (h2 : 0 < r2) :
+    areaD realFns r1 r2 d = areaD realFns r2 r1 d := by
+  by_cases hfar : r1 + r2 < d
+  · rw [far_apart r1 r2 d hfar, far_apart r2 r1 d (by linarith)]
+  · by_cases hn : d ≤ |r1 - r2|
+    · rw [nested r1 r2 d h1 h2 hn, nested r2 r1 d h2 h1 (by rwa [abs_sub_comm]), min_comm]
+    · have hlo := not_le.mp hn
+      have hhi := not_lt.mp hfar
+      rw [areaD_lens r1 r2 d h1 h2 hlo hhi, areaD_lens r2 r1 d h2 h1 (by rwa [abs_sub_comm]) (by linarith),
+        lensStd_symm r1 r2 d, min_comm r1 r2]
+
+/-- symmetric in its arguments. -/
+theorem area_symm (x1 y1 r1 x2 y2 r2 : ℝ) (h1 : 0 < r1) (h2 : 0 < r2) :
+    area realFns x1 y1 r1 x2 y2 r2 = area realFns x2 y2 r2 x1 y1 r1 := by
+  unfold area; rw [dist_real, dist_real]; simp only [bind, Except.bind]
+  rw [show (x2 - x1) ^ 2 + (y2 - y1) ^ 2 = (x1 - x2) ^ 2 + (y1 - y2) ^ 2 by ring]
+  exact lens_symm r1 r2 _ h1 h2
+
+/-- between zero and the area of the smaller disc. -/
+theorem lens_bounds (x1 y1 r1 x2 y2 r2 a : ℝ) (h1 : 0 < r1) (h2 : 0 < r2)
+    (h : area realFns x1 y1 r1 x2 y2 r2 = .ok a) : 0 ≤ a ∧ a ≤ π * (min r1 r2) ^ 2 := by
+  unfold area at h; rw [dist_real] at h; simp only [bind, Except.bind] at h
+  generalize √((x1 - x2) ^ 2 + (y1 - y2) ^ 2) = d at h
+  have hs : 0 ≤ π * (min r1 r2) ^ 2 := by positivity
+  by_cases hfar : r1 + r2 < d
+  · rw [far_apart r1 r2 d hfar] at h; cases h; exact ⟨le_refl _, hs⟩
+  · by_cases hn : d ≤ |r1 - r2|
+    · rw [nested r1 r2 d h1 h2 hn] at h; cases h; exact ⟨hs, le_refl _⟩
+    · rw [areaD_lens r1 r2 d h1 h2 (not_le.mp hn) (not_lt.mp hfar)] at h; cases h
+      exact ⟨le_min hs (le_max_left _ _), min_le_left _ _⟩
+
+/-! ### every rounding behaviour -/
+
+section Structural
+variable {α : Type} [LinearOrder α] [Add α] [Sub α] [Mul α] [Div α] [Neg α] [NatCast α]
+
+/-- whatever the quotient rounded to, `acos` receives a value in `[-1, 1]`
+    (needs only `-1 ≤ 1` in the carrier). -/
+theorem clamp_in_range (x : α) (h : (negOne : α) ≤ one) : (negOne : α) ≤ clamp x ∧ clamp x ≤ (one : α) := by
+  unfold clamp pyMax pyMin
+  split <;> split <;> (constructor <;> order)
+
+/-- structural totality of the repaired code: if `acos` succeeds on `[-1, 1]` and the root succeeds on a sum
+    of two squares, the only error the function can produce is `ZeroDivisionError` (a divisor `2 * r * d`
+    that rounded to zero) — for arbitrary arithmetic, in particular for every rounding behaviour. -/
+theorem total_structural (F : Fns α) (h11 : (negOne : α) ≤ one)
+    (hacos : ∀ x, (negOne : α) ≤ x → x ≤ one → ∃ v, F.acos x = .ok v)
+    (hroot : ∀ x y, ∃ v, F.root (F.sq x + F.sq y) = .ok v)
+    (x1 y1 r1 x2 y2 r2 : α) (e : PyErr) (h : area F x1 y1 r1 x2 y2 r2 = .error e) : e = .zeroDivision := by
+  unfold area Disc.dist at h
+  obtain ⟨d, hd⟩ := hroot (x1 + -x2) (y1 + -y2)
+  rw [hd] at h; simp only [bind, Except.bind] at h
+  unfold areaD at h
+  split at h
+  · cases h
+  · simp only at h
+    split at h
+    · cases h
+    · simp only [bind, Except.bind] at h
+      cases hq1 : quot F r1 r2 d with
+      | error e1 => rw [hq1] at h; cases h; exact pyDiv_error _ _ _ hq1
+      | ok q1 =>
+        rw [hq1] at h; simp only at h
+        obtain ⟨al, ha⟩ := hacos _ (clamp_in_range q1 h11).1 (clamp_in_range q1 h11).2
+        rw [ha] at h; simp only at h
+        cases hq2 : quot F r2 r1 d with
+        | error e2 => rw [hq2] at h; cases h; exact pyDiv_error _ _ _ hq2
+        | ok q2 =>
+          rw [hq2] at h; simp only at h
+          obtain ⟨be, hb⟩ := hacos _ (clamp_in_range q2 h11).1 (clamp_in_range q2 h11).2
+          rw [hb] at h; cases h
+
+/-- … and whatever is returned lies between zero and the (rounded) area of the smaller disc. -/
+theorem bounds_structural (F : Fns α) (x1 y1 r1 x2 y2 r2 a : α)
+    (hs : (zero : α) ≤ small F r1 r2) (h : area F x1 y1 r1 x2 y2 r2 = .ok a) :
+    (zero : α) ≤ a ∧ a ≤ small F r1 r2 := by
+  unfold area at h
+  cases hd : Disc.dist F x1 y1 x2 y2 with
+  | error e => rw [hd] at h; cases h
+  | ok d =>
+    rw [hd] at h; simp only [bind, Except.bind] at h
+    unfold areaD at h
+    split at h
+    · cases h; exact ⟨le_refl _, hs⟩
+    · simp only at h
+      split at h
+      · cases h; exact ⟨hs, le_refl _⟩
+      · simp only [bind, Except.bind] at h
+        cases hq1 : quot F r1 r2 d with
+        | error e => rw [hq1] at h; cases h
+        | ok q1 =>
+          rw [hq1] at h; simp only at h
+          cases ha : F.acos (clamp q1) with
+          | error e => rw [ha] at h; cases h
+          | ok al =>
+            rw [ha] at h; simp only at h
+            cases hq2 : quot F r2 r1 d with
+            | error e => rw [hq2] at h; cases h
+            | ok q2 =>
+              rw [hq2] at h; simp only at h
+              cases hb : F.acos (clamp q2) with
+              | error e => rw [hb] at h; cases h
+              | ok be =>
+                rw [hb] at h; cases h
+                unfold pyMin pyMax
+                split <;> split <;> (constructor <;> order)
+
+end Structural
+
+/-! ### non-vacuity -/
+
+example : |(2:ℝ) - 1| < 2 ∧ (2:ℝ) ≤ 2 + 1 := by norm_num
+example : areaD realFns 2 1 5 = .ok 0 := far_apart 2 1 5 (by norm_num)
+example : areaD realFns 2 1 (1/2) = .ok (π * 1 ^ 2) := by
+  have := nested 2 1 (1/2) (by norm_num) (by norm_num) (by norm_num)
+  rwa [show min (2:ℝ) 1 = 1 by norm_num] at this
+
+example : areaD realFns 1 1 1 = .ok (lensStd 1 1 1) :=
+  lens_formula 1 1 1 (by norm_num) (by norm_num) (by norm_num) (by norm_num)
+
 end FV.C17
